@@ -10,9 +10,11 @@ import (
 
 	"github.com/MichaelMure/git-bug/entities/bug"
 	"github.com/MichaelMure/git-bug/entities/identity"
+	"github.com/MichaelMure/git-bug/entity"
 	"github.com/MichaelMure/git-bug/repository"
 
 	"verif/harness/internal/entropy"
+	"verif/harness/internal/ondisk"
 	"verif/harness/internal/refmodel"
 	"verif/harness/internal/report"
 )
@@ -236,4 +238,120 @@ func dedup(in []string) []string {
 
 func TestC10Snapshot(t *testing.T) {
 	Drive(t, "C10", genC10, runC10)
+}
+
+// TestC10Cache: the state the cache maintains incrementally equals a compilation from scratch.
+// The same kind of sequences go through BugCache (snapshot taken before any edit, so every operation is
+// applied incrementally), are committed in generated chunks, then the bug is re-read from git and
+// compiled from scratch; both are also compared with the reference interpretation of the stored JSON.
+func TestC10Cache(t *testing.T) {
+	type cacheCase struct {
+		Seed   uint64   `json:"seed"`
+		Ops    []OpSpec `json:"ops"`
+		Chunks []int    `json:"chunks"` // commit after this many operations, repeatedly
+	}
+	gen := func(t *rapid.T) cacheCase {
+		c := cacheCase{Seed: rapid.Uint64().Draw(t, "seed")}
+		c.Ops = append(c.Ops, GenCreateSpec(1, 0).Draw(t, "create"))
+		c.Ops = append(c.Ops, rapid.SliceOfN(GenOpSpec(1, 0), 1, Scale(25, 80)).Draw(t, "ops")...)
+		c.Chunks = rapid.SliceOfN(rapid.IntRange(1, 6), 1, 8).Draw(t, "chunks")
+		return c
+	}
+	Drive(t, "C10", gen, func(tb report.TB, rep *report.Reporter, c cacheCase) {
+		w, err := NewCWorld(1, c.Seed)
+		if err != nil {
+			tb.Fatalf("harness: %v", err)
+		}
+		defer w.Close()
+		r := w.R[0]
+		me, _ := r.Cache.GetUserIdentity()
+		bc, _, err := r.Cache.Bugs().NewRaw(me, c.Ops[0].Time, c.Ops[0].Title, c.Ops[0].Message, nil, c.Ops[0].Meta)
+		if err != nil {
+			return // refused by validation
+		}
+		_ = bc.Snapshot() // from now on every operation is applied to this snapshot incrementally
+		var kinds []string
+		applied, inChunk, chunk := 0, 0, 0
+		for _, s := range c.Ops[1:] {
+			snap := bc.Snapshot()
+			ops := snap.Operations
+			var prev []Built
+			for _, o := range ops {
+				prev = append(prev, Built{Id: string(o.Id()), Kind: refmodel.TypeToKind[int(o.Type())]})
+			}
+			var err error
+			switch s.Kind {
+			case refmodel.KComment:
+				_, _, err = bc.AddCommentRaw(me, s.Time, s.Message, nil, s.Meta)
+			case refmodel.KEdit:
+				target := ResolveTarget(s, prev)
+				_, err = bc.EditCommentRaw(me, s.Time, entity.CombineIds(bc.Id(), target), s.Message, s.Meta)
+			case refmodel.KTitle:
+				_, err = bc.SetTitleRaw(me, s.Time, s.Title, s.Meta)
+			case refmodel.KStatus:
+				if s.Status == 1 {
+					_, err = bc.OpenRaw(me, s.Time, s.Meta)
+				} else {
+					_, err = bc.CloseRaw(me, s.Time, s.Meta)
+				}
+			case refmodel.KLabel:
+				if s.TargetIdx%2 == 0 {
+					_, err = bc.ForceChangeLabelsRaw(me, s.Time, s.Added, s.Removed, s.Meta)
+				} else {
+					_, _, err = bc.ChangeLabelsRaw(me, s.Time, s.Added, s.Removed, s.Meta)
+				}
+			case refmodel.KMeta:
+				_, err = bc.SetMetadataRaw(me, s.Time, ResolveTarget(s, prev), s.NewMeta)
+			default:
+				continue
+			}
+			if err != nil {
+				continue // refused: legal
+			}
+			applied++
+			kinds = append(kinds, s.Kind)
+			inChunk++
+			if inChunk >= c.Chunks[chunk%len(c.Chunks)] {
+				if err := bc.Commit(); err != nil {
+					rep.Fail(tb, "C10/cache/commit-fails/"+Normalize(err.Error()), err.Error(), c)
+					return
+				}
+				inChunk = 0
+				chunk++
+			}
+		}
+		if err := bc.CommitAsNeeded(); err != nil {
+			rep.Fail(tb, "C10/cache/commit-fails/"+Normalize(err.Error()), err.Error(), c)
+			return
+		}
+		ks := map[string]bool{}
+		for _, k := range kinds {
+			ks[k] = true
+		}
+		rep.Case("cache|"+strings.Join(kinds, ","), len(ks) >= 3, []string{"through-cache"}, c)
+		incremental := ProjectSnapshot(bc.Snapshot())
+		incremental.MustActors, incremental.MayActors = incremental.Actors, incremental.Actors
+		fresh, err := bug.Read(r.Repo, bc.Id())
+		if err != nil {
+			rep.Fail(tb, "C10/cache/unreadable/"+Normalize(err.Error()), err.Error(), c)
+			return
+		}
+		scratch := ProjectSnapshot(fresh.Compile())
+		if aspect, detail := refmodel.Diff(incremental, scratch); aspect != "" {
+			if rep.Fail(tb, "C10/cache/incremental-differs-from-scratch/"+aspect, "(want = maintained incrementally by the cache, got = compiled from scratch from git)\n"+detail, c) {
+				return
+			}
+		}
+		d, err := ondisk.ReadDAG(r.Repo, "refs/bugs/"+string(bc.Id()))
+		if err != nil {
+			tb.Fatalf("harness: %v", err)
+		}
+		rops, err := d.ROps()
+		if err != nil {
+			tb.Fatalf("harness: %v", err)
+		}
+		if aspect, detail := refmodel.Diff(refmodel.Interpret(rops), incremental); aspect != "" {
+			rep.Fail(tb, "C10/cache/snapshot/"+aspect, detail, c)
+		}
+	})
 }
